@@ -222,6 +222,8 @@ REDUCED = [",", "=", "?:", "||", "&&", "==", "<", "in", "+", "*", "**", "u-", "u
 
 
 def _allowed(slot, opname):
+    if slot.endswith("!"):      # object of a property reference used as assignment / update target: a leaf
+        return False            # ((a + b).p = c is a TypeError in strict mode: primitives have no settable properties)
     if slot == "ref":
         return opname in ("mem", "idx")
     return True
@@ -246,6 +248,8 @@ def shapes(names, depth_ops, root_names=None):
             if not _allowed(slot, name):
                 continue
             _, slots, _ = OPBY[name]
+            if slot == "ref":
+                slots = (slots[0] + "!",) + slots[1:]
             for dist in _distribute(nops - 1, len(slots)):
                 yield from _fill(name, slots, dist, 0, [])
 
@@ -281,7 +285,7 @@ def realise(shape):
                 v = ("v", NUMVARS[counter[0]])
                 counter[0] += 1
                 return v
-            return LEAF[t.slot]
+            return LEAF[t.slot.rstrip("!")]
         name, kids = t
         built = [go(c) for c in kids]
         node = OPBY[name][2](built)
